@@ -664,6 +664,14 @@ func (env *Env) call(e *ast.CallExpr) TV {
 		case "owned":
 			b, _ := tvTerm(env.expr(args[0]))
 			return boolTV(x.bufOwned(env.state(), b))
+		case "wasOwned":
+			// ownership, in the pre-state, of the buffer denoted by the argument in the current state
+			b, _ := tvTerm(env.expr(args[0]))
+			os := env.old
+			if os == nil {
+				os = env.st
+			}
+			return boolTV(x.bufOwned(os, b))
 		case "code":
 			if a, ok := env.expr(args[0]).V.(VIface); ok {
 				return intTV(x.errCode(env.state(), a))
